@@ -14,6 +14,9 @@ rng (all members are visited over the seeds), the thorough tier takes all of it.
                     later in the template's dict order, a following hold): aliasing of the shared scope object
   fam_scale         hardware scaling with amplitude != 1 AND offset != 0, separately on programs that consist of Set
                     commands only and on programs with Increment commands
+  fam_single_pass   (round 4) an iteration with exactly one element that does not start at 0: its index still shifts the base
+  fam_rep_plain     (round 4) a repetition whose first hold repeats the plain level left right before it and whose body ends on
+                    another plain level: only the plain-voltage part of the entry snapshot forces the unrolled first pass
   fam_names         name coincidences: a swap mapping {i: j, j: i} around a hold, an index called like a channel, the identity
                     mapping of an index (m_i := i hands the shared scope object through under another name)
 """
@@ -290,6 +293,71 @@ def fam_scale(thorough):
     return out
 
 
+def fam_single_pass(thorough):
+    """round 4 (seed C17-5): an iteration whose range has exactly ONE element and does not start at 0 (range(3, 4), range(2, 5, 7),
+    range(-2, -3, -1)): the loop is never incremented, but its index still contributes `start * coefficient` to the base.  The
+    single-pass loop is the inner / the outer / the middle level of a nest, alone, under a repetition, next to a sibling hold that
+    uses only the other index; voltages depend on it on one or both channels."""
+    fam = 'single_pass'
+    out = []
+    singles = [(3, 4, 1), (2, 5, 7), (-2, -3, -1), (5, 4, -3), (1, 2, 1)] if thorough else [(3, 4, 1), (2, 5, 7), (-2, -3, -1)]
+    zero_starts = [(0, 1, 1), (0, 5, 7)]                # same shape, start 0: the contribution vanishes
+    for rj in singles + zero_starts:
+        for ci, cj in (('1/4', '1/8'), ('-1/2', '1'), ('0', '1/2')):
+            a = ('1/4', {'i': ci, 'j': cj}) if ci != '0' else ('1/4', {'j': cj})
+            b = ('1', {'j': '-1/4'}) if ci != '0' else ('1', {'j': '-1/4', 'i': '1/2'})    # every enclosing index is used
+            h = H(1, a=a, b=b)
+            hi = H(1, a=('0', {'i': '1/2'}), b='1/2')
+            hj = H(1, a=('1/4', {'j': cj}), b=('1', {'j': '-1/4'}))
+            for chans in (['a', 'b'], ['b', 'a']):
+                out.append(_run(IT('j', rj, SEQ(hj, H(2, a='1/2', b=('0', {'j': '1'})))), chans, fam))     # alone
+                out.append(_run(IT('i', (0, 3, 1), IT('j', rj, h)), chans, fam))                       # inner
+                out.append(_run(IT('j', rj, IT('i', (0, 3, 1), h)), chans, fam))                       # outer
+                out.append(_run(IT('i', (1, 4, 2), SEQ(hi, IT('j', rj, h), hi)), chans, fam))          # between siblings
+            out.append(_run(REP(2, IT('j', rj, IT('i', (0, 2, 1), h))), ['a', 'b'], fam))               # repeated
+            out.append(_run(IT('k', (0, 2, 1), IT('j', rj, IT('i', (0, 2, 1), H(1, a=(a[0], dict(a[1], k='2')), b=b)))), ['a', 'b'], fam))   # middle
+            out.append(_run(IT('j', rj, IT('i', (4, 5, 1), h)), ['a', 'b'], fam))                       # two single passes
+            out.append(_run(IT('j', rj, H(1, a=('1/4', {'j': cj}))), ['a'], fam))
+    return out
+
+
+def fam_rep_plain(thorough):
+    """round 4 (seed C17-6): a repetition (count >= 2) whose FIRST hold repeats, on some channel, exactly the plain level the hold
+    right before the repetition left there (its Set is elided against the entry state) and whose body ENDS on a different plain
+    level of that channel, while all index dependent registers and active registers are the same at the end of the body as at its
+    entry: only the plain-voltage part of the entry snapshot forces the unrolled first pass.  At top level, after a sweep, inside
+    a sweep (other channel swept), one or both channels keeping their level, body of 2 / 3 holds, nested repetition."""
+    fam = 'rep_plain'
+    out = []
+    levels = [('1/8', '3/8', '1/4', '-3/8'), ('0', '1/2', '1', '1/2'), ('1/4', '-1/4', '1/4', '3/4')]
+    if thorough:
+        levels += [('3/2', '0', '-3/2', '0'), ('1', '1', '2', '1')]
+    for cnt in (2, 3):
+        for (a0, b0, a1, b1) in levels:
+            rest, pulse = H(1, a=a0, b=b0), H(2, a=a1, b=b1)
+            init_a = H(1, a='7/8', b=b0)             # only channel b keeps its level across the entry
+            init_b = H(1, a=a0, b='-7/8')            # only channel a
+            for chans in (['a', 'b'], ['b', 'a']):
+                out.append(_run(SEQ(rest, REP(cnt, SEQ(rest, pulse))), chans, fam))
+                out.append(_run(SEQ(init_a, REP(cnt, SEQ(rest, pulse))), chans, fam))
+                out.append(_run(SEQ(init_b, REP(cnt, SEQ(rest, pulse))), chans, fam))
+                out.append(_run(SEQ(pulse, rest, REP(cnt, SEQ(rest, pulse, H(1, a=a1, b=b0)))), chans, fam))
+            out.append(_run(SEQ(H(1, a=a0), REP(cnt, SEQ(H(1, a=a0), H(2, a=a1)))), ['a'], fam))
+            out.append(_run(SEQ(rest, REP(2, REP(cnt, SEQ(rest, pulse)))), ['a', 'b'], fam))
+            out.append(_run(REP(2, SEQ(rest, REP(cnt, SEQ(rest, pulse)))), ['a', 'b'], fam))
+            # inside a sweep: channel a is swept (its register state is the same at entry and exit of the body), b plays plain levels
+            for c in ('1/8', '-1/4'):
+                h0 = H(1, a=('-1/4', {'i': c}), b=b0)
+                h1 = H(1, a=('-1/4', {'i': c}), b=b1)
+                for chans in (['a', 'b'], ['b', 'a']):
+                    out.append(_run(IT('i', (0, 4, 1), SEQ(h0, REP(cnt, SEQ(h0, h1)))), chans, fam))
+                    out.append(_run(IT('i', (2, 0, -1), SEQ(h1, h0, REP(cnt, SEQ(h0, h1, h1)))), chans, fam))
+                # after a complete sweep of a: the repetition starts on the level b had during the sweep
+                sw = IT('i', (0, 3, 1), H(1, a=('0', {'i': c}), b=b0))
+                out.append(_run(SEQ(sw, REP(cnt, SEQ(H(1, a='1/2', b=b0), H(1, a='1/2', b=b1)))), ['a', 'b'], fam))
+    return out
+
+
 def _first_idx(h):
     for v in h['v'].values():
         if v['k'] == 'aff':
@@ -300,9 +368,9 @@ def _first_idx(h):
 def families(rng, tier):
     thorough = tier != 'quick'
     out = []
-    strides = {'rep_entry': 8, 'equal_slope': 5, 'alias': 3, 'names': 2, 'scale': 3}
+    strides = {'rep_entry': 8, 'equal_slope': 5, 'alias': 3, 'names': 2, 'scale': 3, 'single_pass': 4, 'rep_plain': 4}
     for name, f in (('rep_entry', fam_rep_entry), ('equal_slope', fam_equal_slope), ('alias', fam_alias), ('names', fam_names),
-                    ('scale', fam_scale)):
+                    ('scale', fam_scale), ('single_pass', fam_single_pass), ('rep_plain', fam_rep_plain)):
         cases = f(thorough)
         if not thorough:
             k = strides[name]
